@@ -33,6 +33,10 @@ func TestVerif(t *testing.T) {
 	case "C16":
 		verifC16(t, r, out)
 		verifC16Prepared(t, r, out)
+		// deprecated WILDCARD stanzas (one variant in seven / nine of the long-lived plugins counts
+		// down on a moving clock), their sources failing now and then
+		verifC13(t, r, out)
+		verifC15(t, r, out)
 	case "C13":
 		verifC13(t, r, out)
 		verifPrepared(t, out, "C13")
